@@ -522,8 +522,40 @@ def part_d_case(op, a, disp, hexa, d):
     return ['byte at {} is {} (original {})'.format(x, g, w) for x, w, g in bad] + problems[:2]
 
 
+def part_d2_cases():
+    """Two relative jumps with the same operation text (same mnemonic, same target) at different addresses in one file."""
+    a = 32768
+    for op in (0x18, 0x10, 0x20, 0x38):
+        for k in (0, 1, 3, 100):
+            for target in (a - 20, a, a + 2, a + 2 + k, a + 4 + k, a + 30 + k):
+                d1 = target - (a + 2)
+                d2 = target - (a + 2 + k + 2)
+                if -128 <= d1 <= 127 and -128 <= d2 <= 127:
+                    yield bytes((op, d1 & 0xFF) + (0x00,) * k + (op, d2 & 0xFF) + (0x00, 0xC9))
+
+
+def part_d2_case(data, hexa, lower, d):
+    a = 32768
+    binfile = tools.write_file('d2.bin', data, d)
+    ctl = 'c {}\ni {}\n'.format(a, a + len(data))
+    res, problems, skool = run_pair(binfile, a, a + len(data), ctl, (['-H'] if hexa else []) + (['-l'] if lower else []), d, 'd2')
+    if res is None:
+        return problems
+    bad = compare(res[0], data, a, a + len(data))
+    return ['byte at {} is {} (original {})'.format(x, g, w) for x, w, g in bad[:4]] + problems[:2]
+
+
 def part_d(stats, shard, nshards, tier):
     d = tools.workdir()
+    for i, data in core.shard_iter(part_d2_cases(), shard, nshards):
+        for hexa, lower in ((0, 0), (1, 0), (1, 1)):
+            problems = part_d2_case(data, hexa, lower, d)
+            stats.evaluations += 1
+            stats.transitions += 2
+            stats.counters['D_repeated_jump_text'] += 1
+            if problems:
+                stats.violation('D2/{}/hex{}lower{}'.format(data.hex(), hexa, lower), {'part': 'D2', 'data': list(data), 'hex': hexa, 'lower': lower},
+                                '; '.join(problems[:3]), tags={'part': 'D2'}, order=3 * 10**6 + 500000 + i)
     for i, (op, a, disp) in core.shard_iter(part_d_cases(), shard, nshards):
         for hexa in (0, 1):
             problems = part_d_case(op, a, disp, hexa, d)
@@ -552,7 +584,7 @@ def run(tier, seed):
         rule='A: an image of every opcode slot x operand bytes from {00,01,22,41,5C,7F,80,FF} (every combination) disassembled under each base letter '
              '(+ 36 two-letter pairs on the two-operand forms) x -H x -l x Opcodes settings; B: every control-file layout of <= 2 blocks over 8 block '
              'types x 3 (thorough 7) split points with <= 1 sub-block from a menu of B/C/S/T/W sublength patterns, M and L directives, on 4 fills, with '
-             'sna2skool option deviations d <= 1 on the simple layouts; C: every slot cut by the 64K edge at k = 1..4 with Wrap 0/1; D: whole relative jumps (JR, DJNZ, JR Z, JR C) at every address within 130 bytes of either end of memory with targets inside, on and beyond the edge, decimal and hex. evaluations = '
+             'sna2skool option deviations d <= 1 on the simple layouts; C: every slot cut by the 64K edge at k = 1..4 with Wrap 0/1; D: whole relative jumps (JR, DJNZ, JR Z, JR C) at every address within 130 bytes of either end of memory with targets inside, on and beyond the edge, decimal and hex; pairs of relative jumps with the same operation text at different addresses of one file. evaluations = '
              'instructions (A) / layouts (B) / edge cases (C); states = distinct layout shapes; layouts that make sna2skool warn (ill-formed) are counted, not judged',
         exhaustive=True,
         bound='<= 2 blocks, <= 1 sub-block, option deviations d <= 1',
@@ -581,6 +613,8 @@ def replay(case):
             return problems
         bad = compare(res[0], data, ORG, end)
         return ['byte at {} is {} (original {})'.format(a, g, w) for a, w, g in bad[:5]] + problems[:3]
+    if case['part'] == 'D2':
+        return part_d2_case(bytes(case['data']), case['hex'], case['lower'], d)
     if case['part'] == 'D':
         return part_d_case(case['op'], case['a'], case['disp'], case['hex'], d)
     return ['replay of part C cases: run ./check C01 (cheap)']
